@@ -127,6 +127,21 @@ theorem topLevel_spec (fuel : Nat) (s : RState) (code : Code) (s' : RState)
         replace hG := ih.connWrite _ _ _ _ _ _ _ hcall hG
         mret; exact done2 hG
     · mdead
+    · mdead
+  · -- asyncWritev
+    mpop
+    have h := get_bind_inv h
+    split at h
+    · have h := set_bind_inv h
+      obtain ⟨x, hx, hG, h⟩ := Good.getConn_step ((hG.set_tasks _).rest_irrel _) h
+      replace hG := hG.mono (Ψ' := Lv A B 2) (by rintro _ rfl; exact hx)
+      split at h
+      · mret; exact done2 hG
+      · mcall
+        replace hG := ih.connWritev _ _ _ _ _ _ _ hcall hG
+        mret; exact done2 hG
+    · mdead
+    · mdead
   · -- wake
     have h := modify_bind_inv h
     mcall
